@@ -30,6 +30,23 @@ MISSED_FIRST = {  # seeds not reported by the checks as they stood when the seed
     "C16-B": "new rule C16.7: the choice between reading a payload file and the all-zero stand-in may depend on existence only",
     "C20-A": "C20.4 extended: the list stored in the metafile must be the one left after the recovery arm removed a swallowed content path",
     "C20-B": "new rule C20.6: the configuration parser must be constructed with its defaults (values taken verbatim)",
+    # ---- round 2 (three per property: other module / two cooperating sites / rare circumstance)
+    "C01-r2A": "reported by C09.3 only (memoised directory listing); C01 itself has no rule about state across operations - that is C09's subject",
+    "C02-r2A": "reported by C06 only at first; new rule C02.5 / C03.5 (post-assembly integrity): nothing outside the assembling functions may drop, filter, reorder or replace info/'file tree', 'piece layers', info/files, info/pieces, info/length (points-to over the metafile dictionary; order-only copies accepted)",
+    "C02-r2C": "still UNDECIDED (exit 2), not reported as a violation: the closed form of the level-by-level helper padding_root(count) is outside the normal forms the extractor compares; the check fails closed",
+    "C03-r2A": "new rule C03.5 (post-assembly integrity of info/files): `del files[-1]` in sort_meta",
+    "C03-r2B": "new fact entry.call (C02.1 / C03.1 / C10.3): the traversal is entered once, on the content root, outside any loop, and its result is the file tree; also fixed an engine hang (key-path enumeration) and an unsoundness (nested def bodies) this seed exposed",
+    "C03-r2C": "C03.3 ignored `self.end` atoms in the zero-extension guard (they came from transitive control dependence on the early `raise StopIteration`); it now uses control dependence without raise-only branches and compares the full guard",
+    "C04-r2A": "new rule in C04.2 / C05.3 / C16.4: a StopIteration that can escape from a function outside the iterator classes (here `next(fits)` in ProgressBar.new, reached through get_progress_tracker) out of a hand-written __next__ is a stray exhaustion signal",
+    "C04-r2B": "new rule in C04.1 / C16.2 / C05.4: the payload total grows for exactly the entries that are handed to the piece checker (same control dependence as the path being recorded) and by the recorded length",
+    "C04-r2C": "new rule in C04.1 / C16.2: the stored percentage is not rewritten (round / int / ...) after it was computed, and the CLI command returns the value of results() unchanged",
+    "C05-r2A": "new rule C05.5: the piece length both piece checkers hash with is the metafile's recorded value itself (origin term = decoded['info']['piece length'], no creator-side normalisation)",
+    "C05-r2B": "C05 did not run the bookkeeping rules; now C05.4 = bookkeeping (denominator / payload total)",
+    "C06-r2C": "reported by C17 only at first (for the wrong reason); the resolver now derives the effective mode of os.fdopen(os.open(path, flags), mode) from the flags (no O_TRUNC -> 'r+b'), so C06.7 reports the missing truncation; C17 recognises the construct as a write to the temporary path",
+    "C07-r2A": "new rule C07.6: nothing between parse_args and the dispatch rewrites namespace attributes of the edit options (setattr / attribute stores / vars() stores in the entry point and the package functions it hands the namespace to)",
+    "C09-r2B": "reported by C11 only at first (for the wrong reason: the argparse table was looked for in cli.execute only); the table extractor now finds the parser builder wherever it is, and new rule C09.2: a memoised parser builder keeps its default containers alive, so an in-place modification of such an option value anywhere in the package is a violation",
+    "C10-r2A": "new fact merkle.pure (C02.4 / C10.2): merkle_root must not modify the list it is given when a caller reads that list again (HasherV2 asks for the root of the same all-zero piece list in a loop)",
+    "C10-r2C": "new fact single.key (C02.1 / C10.3): the key of a single-file payload's leaf in the file tree is the recorded name (all definitions of the attribute used agree with what is stored as info['name'], modulo abspath)",
 }
 
 
